@@ -10,6 +10,7 @@ ap.add_argument("id")
 ap.add_argument("--caught-by", default="")
 ap.add_argument("--confirm", default="/tmp/r3/confirm1.txt")
 ap.add_argument("--note", default=None)
+ap.add_argument("--round", type=int, default=3)
 a = ap.parse_args()
 meta = json.load(open(os.path.join(a.src, "meta.json")))
 tag = "/".join(a.src.rstrip("/").split("/")[-2:])
@@ -36,8 +37,8 @@ for fn in ("patch.diff", "demo.py", "equiv.py"):
 out = {
     "property": meta["property"],
     "kind": kind,
-    "round": 3,
-    "origin": "independent sub-agent, round 3 (given only the property text and a scratch worktree; asked for three subtle property-breaking changes at different mechanisms - one of them two cooperating sites - and two behaviour-preserving refactors)",
+    "round": a.round,
+    "origin": f"independent sub-agent, round {a.round} (given only the property text and a scratch worktree; asked for three subtle property-breaking changes at different mechanisms - one of them two cooperating sites - and two behaviour-preserving refactors)",
     "summary": meta.get("summary"),
 }
 if kind == "bug":
